@@ -45,7 +45,9 @@ BOUNDS = {
              "symbolic values bounded by 1000 in magnitude). InversionInterferometerMapping via aa.Inversion: (i) stand-in transformer returning an "
              "arbitrary symbolic complex matrix, K<=3 visibilities, <=3 parameters in 1-2 linear objects, complex data and complex positive noise "
              "(Re and Im independent) symbolic, with / without regularization; (ii) the real TransformerDFT (all masks of 1x2, K=2, two linear "
-             "objects, symbolic geometry), preload on/off.",
+             "objects, symbolic geometry), preload on/off. Every inversion case is a two-step history: two inversions built from the SAME dataset "
+             "object (and, in (i), two direct calls of the data-vector util with the same caller-owned arrays); T, D, F are checked both times and "
+             "the dataset's / caller's data, noise and matrix arrays must still hold their original terms afterwards.",
     "thorough": "as quick with: kernels up to P=4, K=3, S=3; class: every mask of 2x3 and 3x2 (concrete geometries 0-2) and of 2x3 (symbolic geometry, K=3, "
                 "scale pairs (0.5,2.0) and (0.25,0.25)); inversion (i) up to K=4 visibilities and up to 4 parameters in two linear objects, "
                 "(ii) all masks of 2x2, K=3, 2+1 parameters, with and without regularization.",
@@ -65,6 +67,9 @@ STUBS = [
     "(no congruence assumed between syntactically different arguments), so every 'holds' verdict is valid for the real cos/sin; concrete arguments use the native functions",
     "complex numbers: harness-local SymComplex proxy (pair of real terms, ring operations only) stored in object arrays; ndarray subclass PArray supplies "
     ".real/.imag/.astype for such arrays; np.real/np.imag/np.array/np.asarray/np.hstack facades keep them intact (NumPy object arrays answer .imag with zeros)",
+    "PartView: .real/.imag of a PArray are write-through views (NumPy returns views of a complex array, so in-place updates of the part change the "
+    "caller's complex array); slices / results derived from such a view are detached. data_vector_via_transformed_mapping_matrix_from (no branches) "
+    "runs as plain Python instead of through the merge interpreter, which would rebind `a /= b` instead of updating in place",
     "case_inversion_stub: StandInTransformer.transform_mapping_matrix returns a symbolic complex matrix (contract: none - it is 'every transformed mapping matrix')",
     "an object-array result whose entries are arrays is treated as a raised exception (NumPy's complex arrays refuse such a store with TypeError)",
 ]
@@ -214,11 +219,11 @@ class PArray(np.ndarray):
 
     @property
     def real(self):
-        return _part(np.asarray(self), 0)
+        return PartView.of(self, 0)
 
     @property
     def imag(self):
-        return _part(np.asarray(self), 1)
+        return PartView.of(self, 1)
 
     def astype(self, dtype, *a, **kw):
         from symx import shim
@@ -230,6 +235,56 @@ class PArray(np.ndarray):
             if kind in "fc":
                 return self.copy()
         return np.ndarray.astype(self, dtype, *a, **kw)
+
+
+class PartView(np.ndarray):
+    """the .real / .imag of a PArray.  NumPy hands out *views* of a complex array, so an in-place operation on the part
+    (`v.real /= w`, `v.imag[k] = x`) changes the complex parent - and whoever else holds that buffer.  This object array
+    writes such updates through to the parent's SymComplex entries.  (Arrays derived from it - slices, results - are detached.)"""
+    _parent = None
+    _which = 0
+
+    def __array_finalize__(self, obj):
+        self._parent, self._which = None, 0
+
+    @staticmethod
+    def of(parent, which):
+        v = _part(np.asarray(parent), which).view(PartView)
+        v._parent, v._which = parent, which
+        return v
+
+    def _sync(self):
+        p = self._parent
+        if p is None:
+            return
+        for idx in np.ndindex(*self.shape):
+            e = SymComplex.of(p[idx])
+            new = np.ndarray.__getitem__(self, idx)
+            p[idx] = SymComplex(new, e.im) if self._which == 0 else SymComplex(e.re, new)
+
+    def __setitem__(self, k, v):
+        np.ndarray.__setitem__(self, k, v)
+        self._sync()
+
+    def _inplace(self, res):
+        np.ndarray.__setitem__(self, Ellipsis, res)
+        self._sync()
+        return self
+
+    def __itruediv__(self, o):
+        return self._inplace(np.asarray(self) / o)
+
+    def __imul__(self, o):
+        return self._inplace(np.asarray(self) * o)
+
+    def __iadd__(self, o):
+        return self._inplace(np.asarray(self) + o)
+
+    def __isub__(self, o):
+        return self._inplace(np.asarray(self) - o)
+
+    def __ipow__(self, o):
+        return self._inplace(np.asarray(self) ** o)
 
 
 def _pview(a):
@@ -336,6 +391,12 @@ def POST_INSTALL():
         return orig_merge(g, new, old)
 
     merge.merge_values = merge_values
+
+    # ---- the data-vector kernel has no branches: run it as plain Python, so that NumPy's in-place semantics of `a /= b` on the
+    #      .real/.imag views of its arguments are the real ones (the merge interpreter rebinds the name instead)
+    from autoarray.inversion.inversion.interferometer import inversion_interferometer_util as iu
+    f = iu.data_vector_via_transformed_mapping_matrix_from
+    iu.data_vector_via_transformed_mapping_matrix_from = getattr(f, "__wrapped_kernel__", f)
 
     # ---- uninterpreted cos/sin: canonical (sum-of-monomials) argument, so that congruence needs no non-linear reasoning
     from symx import explore
@@ -826,10 +887,46 @@ def body_inversion(inp, H, W, K, S1, S2, preload, mode, reg):
                 F[j, j] = F[j, j] + add
         A["F"] = hx.attempt(lambda: inv.curvature_matrix)
         E["F"] = F
-    return per_entry(A, E, ["T.re", "T.im", "D", "F"])
+        # two-step history: a second inversion built from the SAME dataset object / linear objects (what every model fit does)
+        inv2 = hx.attempt(lambda: aa.Inversion(dataset=ds, linear_obj_list=lin, settings=aa.SettingsInversion(use_w_tilde=False)))
+        if not isinstance(inv2, hx.Raised):
+            T2 = hx.attempt(lambda: inv2.operated_mapping_matrix)
+            Tr2, Ti2 = (_split(T2) if (mode == "real" and not isinstance(T2, hx.Raised)) else (Tr, Ti))
+            A["T#2.re"], A["T#2.im"] = _split(T2)
+            E["T#2.re"], E["T#2.im"] = Tr2, Ti2
+            A["D#2"] = hx.attempt(lambda: inv2.data_vector)
+            E["D#2"] = ref_D(Tr2, Ti2, d[:, 0], d[:, 1], s[:, 0], s[:, 1])
+            F2 = ref_F(Tr2, Ti2, s[:, 0], s[:, 1])
+            if not reg:
+                for j in range(n):
+                    F2[j, j] = F2[j, j] + add
+            A["F#2"] = hx.attempt(lambda: inv2.curvature_matrix)
+            E["F#2"] = F2
+        else:
+            A["D#2"], E["D#2"] = inv2, "second inversion constructed"
+        # the dataset's own arrays still hold the values they were built from
+        A["dataset.data.re"], A["dataset.data.im"] = _split(ds.data)
+        E["dataset.data.re"], E["dataset.data.im"] = np.array(d[:, 0], dtype=object), np.array(d[:, 1], dtype=object)
+        A["dataset.noise.re"], A["dataset.noise.im"] = _split(ds.noise_map)
+        E["dataset.noise.re"], E["dataset.noise.im"] = np.array(s[:, 0], dtype=object), np.array(s[:, 1], dtype=object)
+        if mode == "stub":
+            # the util called twice with the same caller-owned arrays
+            from autoarray.inversion.inversion.interferometer import inversion_interferometer_util as iu
+            T_arr, v_arr, n_arr = cplx(Tr, Ti), cplx(d[:, 0], d[:, 1]), cplx(s[:, 0], s[:, 1])
+            for step in (1, 2):
+                A["util.D#%d" % step] = hx.attempt(iu.data_vector_via_transformed_mapping_matrix_from, transformed_mapping_matrix=T_arr,
+                                                   visibilities=v_arr, noise_map=n_arr)
+                E["util.D#%d" % step] = ref_D(Tr, Ti, d[:, 0], d[:, 1], s[:, 0], s[:, 1])
+            A["util.visibilities.re"], A["util.visibilities.im"] = _split(v_arr)
+            E["util.visibilities.re"], E["util.visibilities.im"] = np.array(d[:, 0], dtype=object), np.array(d[:, 1], dtype=object)
+            A["util.noise.re"], A["util.noise.im"] = _split(n_arr)
+            E["util.noise.re"], E["util.noise.im"] = np.array(s[:, 0], dtype=object), np.array(s[:, 1], dtype=object)
+            A["util.T.re"], A["util.T.im"] = _split(T_arr)
+            E["util.T.re"], E["util.T.im"] = np.array(Tr, dtype=object), np.array(Ti, dtype=object)
+    return per_entry(A, E, ["T.re", "T.im", "D", "F", "T#2.re", "T#2.im", "D#2", "F#2", "util.D#1", "util.D#2"])
 
 
-INV_KEYS = ["T.re", "T.im"]
+INV_KEYS = ["T.re", "T.im", "T#2.re", "T#2.im"]
 
 
 def _noise_positive(ctx, s):
